@@ -39,6 +39,24 @@ NOTES = [
     ("parse/ioutils.py", 116, "const 3", "four header bytes are read and pushed back; the hint looks at the first three"),
     ("parse/ioutils.py", 120, "const 3", "four header bytes are read and sought back; the hint looks at the first three"),
     ("generic/serialize.py", 176, "isinstance", "iterating the sink itself yields the same statements as sink.store"),
+    ("generic/serialize.py", 218, "isinstance", "iterating the sink itself yields the same statements as sink.store"),
+    ("generic/serialize.py", 221, "iter(data)", "the condition is always true for an iterable"),
+    ("generic/serialize.py", 228, "frame_from_dataset", "the rows are emitted by the unconditional end-of-input flush instead: same frames"),
+    ("generic/serialize.py", 149, "frame_from_graph", "one graph per call: the rows are emitted by the end-of-input flush instead: same frames"),
+    ("parse.py", None, "frames is None or options is None", "differs only when exactly one of the two arguments is given, which no caller does"),
+    ("parse.py", None, "st is None", "only the text of an error message changes"),
+    ("parse.py", None, "True -> False", "decorator argument"),
+    ("generic/parse.py", None, "sink.bind", "BLIND SPOT at the time of the campaign: C14 compared the bindings of the flat parser and parse-to-graph only. Fixed: C14 now inspects the sinks of every reader and reports this mutant (verified)."),
+    ("generic_sink.py", 194, "_namespaces", "BLIND SPOT at the time of the campaign (GenericStatementSink.parse() lost the bindings). Fixed: C14 reads through sink.parse() as well and reports this mutant (verified)."),
+    ("generic_sink.py", 195, "_identifier", "the identifier of a parsed sink is the default graph either way"),
+    ("rdflib/serialize.py", 168, "isinstance", "iterating a Dataset yields the same quads as Dataset.quads()"),
+    ("rdflib/serialize.py", None, "frame_from_dataset", "the rows are emitted by the unconditional end-of-input flush instead: same frames"),
+    ("rdflib/serialize.py", 139, "frame_from_graph", "only a Dataset written through a TripleStream with logical type GRAPHS is affected (all its graphs end up in one frame); no property fixes the framing of that path (C07 speaks of one frame per *input* graph/dataset)"),
+    ("rdflib/serialize.py", 33, "True -> False", "decorator argument"),
+    ("rdflib/parse.py", 239, "_graph_id", "a triple before the first graph start still raises (AttributeError)"),
+    ("rdflib/parse.py", 243, "_graph_id is None", "the `graph` guard property is not used"),
+    ("rdflib/parse.py", None, "const", "Triple.s/p/o convenience properties are not used by the library"),
+    ("rdflib/parse.py", None, "sink.bind", "BLIND SPOT at the time of the campaign (bindings of graphs yielded by the rdflib grouped parser). Fixed: C14 checks them now (verified)."),
     ("generic/serialize.py", 184, "frame_from_dataset", "the rows are emitted by the unconditional end-of-input flush instead: same frames"),
 ]
 
@@ -63,6 +81,14 @@ with open(os.path.join(VERIF, "MUTANTS.md"), "w") as f:
         f.write(f"* {k}: {v}\n")
     f.write("\nCaught (test-surviving) mutants by first reporting check: "
             + ", ".join(f"{k} {v}" for k, v in by.most_common()) + "\n\n")
+    f.write("The campaign ran against the checks as they were at commit 64da5e8; the table "
+            "records what survived *then*. Every survivor was triaged by hand: all but five are "
+            "equivalent with respect to the twenty properties (decorator arguments, unused "
+            "attributes, message texts, conditions that cannot differ, behaviour no property "
+            "constrains); five (three code sites: bindings lost by the generic grouped parser, by "
+            "GenericStatementSink.parse() and by the rdflib grouped parser) were genuine blind "
+            "spots of C14, which was extended and now reports them (re-verified by applying the "
+            "mutants by hand).\n\n")
     f.write("## Mutants that survive the tests and every quick check\n\n"
             "| # | file:line | mutation | triage |\n|---|---|---|---|\n")
     for r in rs:
